@@ -10,21 +10,21 @@ Import ListNotations.
 Local Open Scope list_scope.
 
 (* ranks of the table characters are pairwise different and none is the rank of the empty string *)
-Definition ranks_injective : bool :=
-  forallb (fun c1 => negb (Nat.eqb (rk c1) er) && forallb (fun c2 => implb (Nat.eqb (rk c1) (rk c2)) (eqc c1 c2)) table_chars) table_chars.
-Lemma ranks_injective_ok : ranks_injective = true.
-Proof. vm_compute. reflexivity. Qed.
+Definition inj_row (c1 : ascii) : bool :=
+  negb (Nat.eqb (rk c1) er) && forallb (fun c2 => implb (Nat.eqb (rk c1) (rk c2)) (eqc c1 c2)) table_chars.
+Lemma ranks_injective_ok : forall c1, In c1 table_chars -> inj_row c1 = true.
+Proof. apply forallb_forall. vm_compute. reflexivity. Qed.
 
 Lemma rk_not_er c : in_table c = true -> rk c <> er.
 Proof.
-  intros H. pose proof ranks_injective_ok as R. unfold ranks_injective in R. rewrite forallb_forall in R.
-  specialize (R c (in_table_listed c H)). apply andb_true_iff in R. destruct R as [R _]. apply negb_true_iff in R. apply Nat.eqb_neq in R. exact R.
+  intros H. pose proof (ranks_injective_ok c (in_table_listed c H)) as R. unfold inj_row in R.
+  apply andb_true_iff in R. destruct R as [R _]. apply negb_true_iff in R. apply Nat.eqb_neq in R. exact R.
 Qed.
 Lemma rk_inj c1 c2 : in_table c1 = true -> in_table c2 = true -> rk c1 = rk c2 -> c1 = c2.
 Proof.
-  intros H1 H2 E. pose proof ranks_injective_ok as R. unfold ranks_injective in R. rewrite forallb_forall in R.
-  specialize (R c1 (in_table_listed c1 H1)). apply andb_true_iff in R. destruct R as [_ R]. rewrite forallb_forall in R.
-  specialize (R c2 (in_table_listed c2 H2)). rewrite E, Nat.eqb_refl in R. cbn in R. apply eqc_eq. exact R.
+  intros H1 H2 E. pose proof (ranks_injective_ok c1 (in_table_listed c1 H1)) as R. unfold inj_row in R.
+  apply andb_true_iff in R. destruct R as [_ R]. pose proof (proj1 (forallb_forall _ _) R c2 (in_table_listed c2 H2)) as R2. cbv beta in R2.
+  rewrite E, Nat.eqb_refl in R2. cbn in R2. apply eqc_eq. exact R2.
 Qed.
 
 (* equal prefixes *)
